@@ -81,7 +81,14 @@ fn summary_json(ctx: &Ctx, out: &ShardOut, wall: f64) -> J {
         .set("resync_loose", J::U(c.resync_loose))
         .set("multi_outcome", J::U(c.multi_outcome))
         .set("transitions", J::U(c.transitions))
-        .set("states", J::A(c.states.iter().map(|s| J::U(*s)).collect()))
+        .set("states_n", J::u(c.states.len()))
+        .set("states", {
+            // k-minimum-values sketch of the abstract-state hashes (exact below 4096 states)
+            let mut v: Vec<u64> = c.states.iter().copied().collect();
+            v.sort_unstable();
+            v.truncate(4096);
+            J::A(v.into_iter().map(J::U).collect())
+        })
         .set("triples", J::A(triples))
         .set("ops", c.ops.to_j())
         .set("outcomes", c.outcomes.to_j())
